@@ -22,7 +22,7 @@ LEVEL = "translation_validation"
 READY = True
 PROP = "C06"
 TARGETS = ["theories/Props/C06.vo"]
-THEOREMS = ["C06_ledger_prediction_sound", "C06_ledger_blocks_wellformed", "C06_post_return_generated_iff_heap",
+THEOREMS = ["C06_ledger_prediction_sound", "C06_ledger_protocol_total", "C06_ledger_blocks_wellformed", "C06_post_return_generated_iff_heap",
             "C06_scratch_buffer_freed_exactly_once", "C06_dealloc_frees_iff_nonzero"]
 CATS = ("memory", "crash")
 
